@@ -80,7 +80,7 @@ func C03() int {
 			key = string(sn.Item.Raw) + sn.Flags.String()
 		}
 		c.Eval(key)
-		if sn.Variant < 3 && sn.Item.Kind == "soup" {
+		if sn.Item.Kind == "soup" || sn.Item.Kind == "charset" {
 			c.Sample(map[string]any{"flags": sn.Flags.String(), "input": short(sn.Item.Raw, 500), "output": short(sn.Res.Out, 500)})
 		}
 	}
